@@ -299,38 +299,35 @@ def check_miss_and_counts(P, ctx):
 
 
 def check_layout(P, ctx):
+    """the node layout is whatever the accessors say; what must hold is agreement: the allocator's block covers links, headers, key and
+    value where the accessors place them, without overlap, each embedded object with its header directly in front; the functions that
+    recover a node from a key cursor invert Tree_Key (decided by the walks: C03.cursor-order, and the visit evaluations here)"""
+    from . import absmodel
     rule = 'C03.layout'
-    Hs = poly.Poly.atom('H')
-    k, v = poly.Poly.atom('arg0->ksize'), poly.Poly.atom('arg0->vsize')
-    W3 = poly.Poly.const(24)
     fn = P.fn('Tree_Alloc')
-    g = P.cfg(fn)
     ctx.fn(fn)
-    N = util.Norm(P, fn)
-    cs = [c for n in g.live() if n['expr'] is not None for c in ir.calls(n['expr']) if ir.callee_name(c) == 'calloc']
-    ok = len(cs) == 1 and poly.from_expr(N.canon(cs[0][2][0])) * poly.from_expr(N.canon(cs[0][2][1])) == W3 + Hs + k + Hs + v
-    ctx.check(ok, rule, 'Tree_Alloc', site(fn), 'a node is three link words, a header, the key, a header and the value')
-    for f, want in (('Tree_Key', W3 + Hs), ('Tree_Val', W3 + Hs + k + Hs)):
-        ab = util.accessor_body(P, f)
-        ok = ab is not None and poly.from_expr(ir.canon(ab[1])) - poly.Poly.atom('arg1') == want
-        ctx.check(ok, rule, f, site(P.fn(f)), '%s is at its layout offset in the node' % f)
-    for f, off in (('Tree_Left', 0), ('Tree_Right', 8)):
-        ab = util.accessor_body(P, f)
-        ok = ab is not None and poly.from_expr(ir.canon(ab[1])) - poly.Poly.atom('arg1') == poly.Poly.const(off)
-        ctx.check(ok, rule, f, site(P.fn(f)), 'link word at offset %d' % off)
-    # node recovered from a key cursor: curr - H - 3W
-    n_rec = 0
-    for fname in (P.slot('Tree', 'Iter', 'iter_next'), P.slot('Tree', 'Iter', 'iter_prev'), 'Tree_Hash', 'Tree_Mark', 'Tree_Show'):
-        fn = P.fn(fname)
-        N = util.Norm(P, fn)
-        ds = [d for s_ in ir.stmts(fn['body']) if s_['k'] == 'decl' for d in s_['decls'] if d['name'] == 'node' and d['init'] is not None]
-        ok = len(ds) == 1
-        if ok:
-            p = poly.from_expr(N.canon(ds[0]['init']))
-            base = [a for a in p.atoms() if a in ('arg1', 'curr')]
-            ok = len(base) == 1 and p - poly.Poly.atom(base[0]) == -(W3 + Hs)
-        n_rec += 1
-        ctx.check(ok, rule, fname + ':node-from-key', site(fn), 'the node of a key cursor is the cursor minus header minus three link words (the inverse of Tree_Key)')
+    try:
+        bad, unsup = absmodel.eval_node_alloc(P, 'Tree')
+    except absmodel.Unsupported as x:
+        bad, unsup = None, str(x)
+    if unsup and not bad:
+        ctx.undecided(rule, 'Tree_Alloc', site(fn), 'the allocator leaves the evaluated fragment: ' + unsup)
+    else:
+        ctx.check(bad is None, rule, 'Tree_Alloc', site(fn), 'a node is three link words, a header, the key, a header and the value: the block covers all of them where Tree_Left/Right/'
+                  'Get_Parent/Key/Val place them, without overlap, and both headers are initialised (key type, value type, AllocData)', [bad] if bad else None)
+    for fname, mode in (('Tree_Hash', 'hash'), ('Tree_Mark', 'mark')):
+        fn = P.fn(P.slot('Tree', 'Hash' if mode == 'hash' else 'Mark', mode))
+        ctx.fn(fn)
+        try:
+            bad, unsup, ncase = absmodel.eval_visits(P, 'Tree', fn['name'], mode)
+        except absmodel.Unsupported as x:
+            bad, unsup, ncase = None, str(x), 0
+        ctx.stats['paths'] += ncase
+        if unsup and not bad:
+            ctx.undecided(rule, fname + ':node-from-key', site(fn), 'leaves the evaluated fragment: ' + unsup)
+        else:
+            ctx.check(bad is None, rule, fname + ':node-from-key', site(fn), 'the node of a key cursor is recovered by the inverse of Tree_Key: walking every tree shape of up to 4 nodes reaches every '
+                      'key and value once', [bad] if bad else None)
     # predecessor copy extent (shared with C05)
     from .rules_c05 import tree_pred_copy_extent
     fn = P.fn('Tree_Rem')
@@ -339,7 +336,7 @@ def check_layout(P, ctx):
     why = tree_pred_copy_extent(P, fn, g, mc) if mc else 'no byte copy'
     ctx.check(why is True, rule, 'Tree_Rem:predecessor-copy', site(fn), 'the predecessor\'s whole payload (both headers, key and value) replaces the removed entry\'s, at the same offsets',
               [why] if why is not True else None)
-    ctx.floor(rule, 11)
+    ctx.floor(rule, 4)
 
 
 def check_colour_transfer(P, ctx):
